@@ -337,7 +337,8 @@ def means(ctx):
         d = names[ax]
         op = {"op": "mean(direction)", "direction": d, "axis": ax,
               "direction_type": "str"}
-        okc, m = ctx.expect_ok("C06.mean.accepted", lambda: f.mean(d), what=dict(info, **op))
+        okc, m = ctx.expect_ok("C06.mean.accepted" if nd > 1 else "C06.mean.1d.accepted",
+                               lambda: f.mean(d), what=dict(info, **op))
         if not okc:
             continue
         exp1, sc1 = expected([ax])
